@@ -279,12 +279,15 @@ func c05Check(c c05Case) (string, []c05Verdict) {
 	}
 	implDir := c.Pkgs[len(c.Pkgs)-1]
 	verdicts := c05Expected(ld, proggen.Module+"/"+implDir, c.Sources, implDir)
-	// actual: (type, code, subject) from messages
+	// actual: (type, code, subject) from messages; subject = the qualifier
+	// (IMPL01) or the interface as written in the annotation (IMPL02/03)
 	type got struct {
 		code    string
+		subject string
 		missing []string
+		used    bool
 	}
-	actual := map[string][]got{} // by type name
+	actual := map[string][]*got{} // by type name
 	for _, d := range res.Diags {
 		if !strings.HasPrefix(d.Code, "IMPL") {
 			continue
@@ -294,7 +297,7 @@ func c05Check(c c05Case) (string, []c05Verdict) {
 			return "unparsable IMPL message: " + firstLine(d.Message), verdicts
 		}
 		tname := m[3] + m[5] + m[6]
-		g := got{code: m[1]}
+		g := &got{code: m[1], subject: m[2] + m[4] + m[7]}
 		if m[1] == "IMPL03" {
 			if i := strings.Index(d.Message, "missing methods:\n"); i >= 0 {
 				for _, ml := range strings.Split(d.Message[i+len("missing methods:\n"):], "\n") {
@@ -311,22 +314,102 @@ func c05Check(c c05Case) (string, []c05Verdict) {
 		}
 		actual[tname] = append(actual[tname], g)
 	}
+	// a type may carry several annotations: every judged verdict must find its
+	// own diagnostic (same code, same subject, same missing list), every
+	// diagnostic must belong to a verdict (or to an annotation left open)
+	subjectOf := func(v c05Verdict) (qual, iface string) {
+		m := annotRe.FindStringSubmatch(v.Key[strings.Index(v.Key, "|")+1:])
+		if m == nil {
+			return "", ""
+		}
+		if m[2] != "" {
+			return m[2], m[2] + "." + m[3]
+		}
+		return "", m[3]
+	}
 	var probs []string
+	openSubjects := map[string][]string{}
 	for _, v := range verdicts {
 		tname := v.Key[:strings.Index(v.Key, "|")]
-		gs := actual[tname]
 		if v.Open != "" {
+			q, i := subjectOf(v)
+			openSubjects[tname] = append(openSubjects[tname], q, i)
+		}
+	}
+	for _, v := range verdicts {
+		if v.Open != "" || v.Code == "" {
 			continue
 		}
+		tname := v.Key[:strings.Index(v.Key, "|")]
+		q, i := subjectOf(v)
+		want := i
+		if v.Code == "IMPL01" {
+			want = q
+		}
+		var hit, near *got
+		for _, g := range actual[tname] {
+			if g.used || g.subject != want && !(v.Code != "IMPL01" && g.subject == q) {
+				continue
+			}
+			if g.code == v.Code && (v.Code != "IMPL03" || strings.Join(g.missing, ",") == strings.Join(v.Missing, ",")) && g.subject == want {
+				hit = g
+				break
+			}
+			if near == nil {
+				near = g
+			}
+		}
 		switch {
-		case v.Code == "" && len(gs) > 0:
-			probs = append(probs, fmt.Sprintf("%s: Go accepts it, tool reports %s %v", v.Key, gs[0].code, gs[0].missing))
-		case v.Code != "" && len(gs) == 0:
+		case hit != nil:
+			hit.used = true
+		case near != nil && near.code != v.Code:
+			near.used = true
+			probs = append(probs, fmt.Sprintf("%s: expected %s, tool reports %s", v.Key, v.Code, near.code))
+		case near != nil:
+			near.used = true
+			probs = append(probs, fmt.Sprintf("%s: Go considers %v missing or of wrong type, tool lists %v", v.Key, v.Missing, near.missing))
+		default:
 			probs = append(probs, fmt.Sprintf("%s: expected %s %v, tool is silent", v.Key, v.Code, v.Missing))
-		case v.Code != "" && gs[0].code != v.Code:
-			probs = append(probs, fmt.Sprintf("%s: expected %s, tool reports %s", v.Key, v.Code, gs[0].code))
-		case v.Code == "IMPL03" && strings.Join(gs[0].missing, ",") != strings.Join(v.Missing, ","):
-			probs = append(probs, fmt.Sprintf("%s: Go considers %v missing or of wrong type, tool lists %v", v.Key, v.Missing, gs[0].missing))
+		}
+	}
+	for _, v := range verdicts {
+		if v.Open != "" || v.Code != "" {
+			continue
+		}
+		// Go accepts this annotation: no diagnostic may be left that names it
+		// (unless another annotation of the type with the same subject explains it)
+		tname := v.Key[:strings.Index(v.Key, "|")]
+		_, i := subjectOf(v)
+		for _, g := range actual[tname] {
+			if !g.used && g.subject == i {
+				open := false
+				for _, o := range openSubjects[tname] {
+					open = open || o == g.subject
+				}
+				if !open {
+					g.used = true
+					probs = append(probs, fmt.Sprintf("%s: Go accepts it, tool reports %s %v", v.Key, g.code, g.missing))
+				}
+			}
+		}
+	}
+	var tnames []string
+	for tname := range actual {
+		tnames = append(tnames, tname)
+	}
+	sort.Strings(tnames)
+	for _, tname := range tnames {
+		for _, g := range actual[tname] {
+			if g.used {
+				continue
+			}
+			open := false
+			for _, o := range openSubjects[tname] {
+				open = open || o == g.subject
+			}
+			if !open {
+				probs = append(probs, fmt.Sprintf("%s: tool reports %s %v for %q, no annotation of the type explains it", tname, g.code, g.missing, g.subject))
+			}
 		}
 	}
 	sort.Strings(probs)
@@ -587,6 +670,42 @@ func c05Program(rt *rapid.T) (c05Case, map[string]int) {
 		annot += iname
 		if g.chance("trailingText", 15) {
 			annot += " as required by the scheduler"
+		}
+		// further @implements lines on the same declaration (before or after the
+		// main one): the same interface in the other & mode, another interface,
+		// an unknown qualifier, a missing interface
+		if g.chance("moreAnnotations", 40) {
+			for k, n := 0, 1+g.pick("nMore", 2); k < n; k++ {
+				it2, ptr2 := it, !ptr
+				if !g.chance("sameIfaceOtherMode", 40) {
+					it2, ptr2 = ifaces[g.pick("moreIface", len(ifaces))], g.chance("moreAmp", 50)
+				}
+				q2 := strings.TrimSuffix(q, ".")
+				if it2.Local {
+					q2 = ""
+				}
+				n2 := it2.Name
+				switch g.pick("moreShape", 10) {
+				case 0:
+					q2 = "nosuchpkg"
+				case 1:
+					n2 = "Missing"
+				}
+				line := "// @implements "
+				if ptr2 {
+					line += "&"
+				}
+				if q2 != "" {
+					line += q2 + "."
+				}
+				line += n2
+				if g.chance("moreFirst", 50) {
+					annot = line + "\n" + annot
+				} else {
+					annot = annot + "\n" + line
+				}
+				classes["second / third @implements line on one declaration"]++
+			}
 		}
 		// methods
 		var embeds, decls []string
